@@ -100,8 +100,8 @@ Admissible(nm, len, p) ==
     ELSE FALSE
 
 Params(nm) ==
-    IF nm = "blackman" THEN {160, 200, 0}          \* alpha * 1000
-    ELSE IF nm = "cauchy" THEN {3000, 2000, 500}   \* alpha * 1000
+    IF nm = "blackman" THEN {160, 200, 0, 300, 500, 1000}   \* alpha * 1000 (above 250 the closed form has negative samples)
+    ELSE IF nm = "cauchy" THEN {3000, 2000, 500, 6000}   \* alpha * 1000
     ELSE IF nm = "flattop" THEN {0, 1}             \* 0 = symmetric, 1 = periodic
     ELSE IF nm = "tukey" THEN {0, 1}               \* r = 0, r = 1
     ELSE {0}
